@@ -52,8 +52,10 @@ func HashNameToAllPrefixFwThreads(name enc.Name) []bool {
 		return threads
 	}
 
+	// Include the zero-component prefix (index 0): an Interest for "/" with
+	// CanBePrefix is pending in the thread HashNameToFwThread gives for that name
 	prefixHash := name.PrefixHash()
-	for i := 1; i < len(prefixHash); i++ {
+	for i := 0; i < len(prefixHash); i++ {
 		thread := int(prefixHash[i] % uint64(len(Threads)))
 		threads[thread] = true
 	}
